@@ -66,13 +66,25 @@ func loopEntry[T any](x T) T                     { return x }
 func exactCmpIF(i int64, f float64) int          { return 0 }
 func errIsCtx(err error) bool                    { return false }
 func sameSlice[T any](a, b []T) bool             { return len(a) == len(b) }
-func sameVal[T any](a, b T) bool                  { return true }
+func sameVal[T any](a, b T) bool                 { return true }
 func uninterp[T any](name string, args ...any) T { var z T; return z }
 func outCount() int                              { return 0 }
 func outFirst() any                              { return nil }
 func outLast() any                               { return nil }
 
 //@ sweep safety C05
+
+// The execution context is left as it was found by every step (DESIGN E4); what
+// a field carries decides which further properties rest on that frame.
+//@ frameprops Executor.innermostArraySize C01 C14
+//@ frameprops Executor.baseObject C16
+//@ frameprops Executor.current C01 C10
+//@ frameprops Executor.root C01
+//@ frameprops Executor.ignoreStructuralErrors C01 C07 C15
+//@ frameprops Executor.verbose C08
+//@ frameprops Executor.useTZ C17
+//@ frameprops Executor.vars C01
+//@ frameprops Executor.path C01
 
 // ---------------------------------------------------------------------------
 // C11 / C12 leaf functions
@@ -101,6 +113,7 @@ func outLast() any                               { return nil }
 
 //@ func executeIntegerMath
 //@ props C13
+//@ requires [C13] fits: intMathFits(lhs, rhs, op)
 //@ ensures add: op == ast.BinaryAdd && fitsInt64(lhs + rhs) ==> r1 == nil && r0 == lhs + rhs
 //@ ensures sub: op == ast.BinarySub && fitsInt64(lhs - rhs) ==> r1 == nil && r0 == lhs - rhs
 //@ ensures mul: op == ast.BinaryMul && fitsInt64(lhs * rhs) ==> r1 == nil && r0 == lhs * rhs
@@ -109,10 +122,22 @@ func outLast() any                               { return nil }
 //@ ensures zero: (op == ast.BinaryDiv || op == ast.BinaryMod) && rhs == 0 ==> r1 != nil && errIs(r1, ErrVerbose)
 //@ ensures [C05] class: r1 != nil ==> (errIs(r1, ErrVerbose) && errIs(r1, ErrExecution)) || errIs(r1, ErrInvalid)
 //@ ensures [C05] math-op-never-invalid: op >= ast.BinaryAdd && op <= ast.BinaryMod ==> !errIs(r1, ErrInvalid)
-//@ ensures nowrap-add: op == ast.BinaryAdd && !fitsInt64(lhs + rhs) ==> r1 != nil
-//@ ensures nowrap-sub: op == ast.BinarySub && !fitsInt64(lhs - rhs) ==> r1 != nil
-//@ ensures nowrap-mul: op == ast.BinaryMul && !fitsInt64(lhs * rhs) ==> r1 != nil
-//@ ensures nowrap-div: op == ast.BinaryDiv && rhs != 0 && !fitsInt64(lhs / rhs) ==> r1 != nil
+
+//@ func intMathFits
+//@ props C13
+//@ pure
+//@ ensures [C13] add: op == ast.BinaryAdd ==> r0 == fitsInt64(lhs + rhs)
+//@ ensures [C13] sub: op == ast.BinarySub ==> r0 == fitsInt64(lhs - rhs)
+//@ ensures [C13] mul: op == ast.BinaryMul ==> r0 == fitsInt64(lhs * rhs)
+//@ ensures [C13] div: op == ast.BinaryDiv && rhs != 0 ==> r0 == fitsInt64(lhs / rhs)
+//@ ensures [C13] mod: op == ast.BinaryMod ==> r0
+
+//@ func integerMath
+//@ props C13
+//@ ensures [C13] exact-integer: intMathFits(lhs, rhs, op) ==> ncalls(executeIntegerMath) == 1 && ncalls(executeFloatMath) == 0 && callarg[int64](executeIntegerMath, "lhs") == lhs && callarg[int64](executeIntegerMath, "rhs") == rhs && callarg[ast.BinaryOperator](executeIntegerMath, "op") == op && r1 == callret[error](executeIntegerMath, 1) && (r1 == nil ==> r0 == any(callret[int64](executeIntegerMath, 0)))
+//@ ensures [C13] double-when-too-large: !intMathFits(lhs, rhs, op) ==> ncalls(executeFloatMath) == 1 && ncalls(executeIntegerMath) == 0 && callarg[ast.BinaryOperator](executeFloatMath, "op") == op && sameFloat(callarg[float64](executeFloatMath, "lhs"), toFloat(lhs)) && sameFloat(callarg[float64](executeFloatMath, "rhs"), toFloat(rhs)) && r1 == callret[error](executeFloatMath, 1) && (r1 == nil ==> r0 == any(callret[float64](executeFloatMath, 0)))
+//@ ensures [C13] result-numeric: r1 == nil ==> is[int64](r0) || is[float64](r0)
+//@ ensures [C05 C13] class: r1 != nil ==> errIs(r1, ErrVerbose) && errIs(r1, ErrExecution) && !errIs(r1, ErrInvalid) || !(op >= ast.BinaryAdd && op <= ast.BinaryMod)
 
 // ---------------------------------------------------------------------------
 // exec.go: entry points, executor construction, error helpers
@@ -243,7 +268,7 @@ func outLast() any                               { return nil }
 //@ requires arraySize >= 0
 //@ modifies exec.lastGeneratedObjectID
 //@ ensures [C05] class: r2 != nil ==> errIs(r2, ErrExecution) || errIs(r2, ErrInvalid)
-//@ ensures [C14 C07] bounds: r2 == nil ==> 0 <= r0 && r1 < arraySize
+//@ ensures [C14 C07 C05] bounds: r2 == nil ==> 0 <= r0 && r1 < arraySize
 //@ ensures [C07] strict-inrange: r2 == nil && !exec.ignoreStructuralErrors ==> r0 <= r1
 //@ ensures [C14] operands: is[*ast.BinaryNode](node) && as[*ast.BinaryNode](node).Operator() == ast.BinarySubscript ==> ncalls(exec.getArrayIndex) >= 1 && ncalls(exec.getArrayIndex) <= 2 && (as[*ast.BinaryNode](node).Right() == nil ==> ncalls(exec.getArrayIndex) <= 1)
 //@ ensures [C14 C07] single-lax: ncalls(exec.getArrayIndex) == 1 && firstret[error](exec.getArrayIndex, 1) == nil && exec.ignoreStructuralErrors ==> r2 == nil && r0 == max(firstret[int](exec.getArrayIndex, 0), 0) && r1 == min(firstret[int](exec.getArrayIndex, 0), arraySize-1)
@@ -527,7 +552,7 @@ func isUnknownSpec(a predOutcome) predOutcome {
 //@ atcall executeItemOptUnwrapResultSilent assert [C12 C10] operands: arg_value == value && (arg_node == left && arg_unwrap || arg_node == right && arg_unwrap == unwrapRightArg)
 //@ ensures [C12] local-lax-false: !exec.path.IsStrict() && r0 == predFalse && r1 == nil ==> forall(func(i int, j int) bool { return implies(0 <= i && i < len(lSeq.list) && 0 <= j && j < len(rSeq.list), dynret[predOutcome](callback, 0, ctx, pred, lSeq.list[i], rSeq.list[j]) == predFalse) })
 //@ ensures [C12] local-lax-unknown: !exec.path.IsStrict() && r0 == predUnknown && r1 == nil && pendingFailed() == false ==> forall(func(i int, j int) bool { return implies(0 <= i && i < len(lSeq.list) && 0 <= j && j < len(rSeq.list), dynret[predOutcome](callback, 0, ctx, pred, lSeq.list[i], rSeq.list[j]) != predTrue) })
-//@ ensures [C12] local-strict-true: exec.path.IsStrict() && r0 == predTrue ==> forall(func(i int, j int) bool { return implies(0 <= i && i < len(lSeq.list) && 0 <= j && j < len(rSeq.list), dynret[predOutcome](callback, 0, ctx, pred, lSeq.list[i], rSeq.list[j]) != predUnknown) })
+//@ ensures [C12 C01] local-strict-true: exec.path.IsStrict() && r0 == predTrue ==> forall(func(i int, j int) bool { return implies(0 <= i && i < len(lSeq.list) && 0 <= j && j < len(rSeq.list), dynret[predOutcome](callback, 0, ctx, pred, lSeq.list[i], rSeq.list[j]) != predUnknown) })
 //@ ensures [C12] local-strict-false: exec.path.IsStrict() && r0 == predFalse ==> forall(func(i int, j int) bool { return implies(0 <= i && i < len(lSeq.list) && 0 <= j && j < len(rSeq.list), dynret[predOutcome](callback, 0, ctx, pred, lSeq.list[i], rSeq.list[j]) == predFalse) })
 //@ ensures [C12] true-witness: r0 == predTrue && !exec.path.IsStrict() ==> ncalls(callback) >= 1 && callret[predOutcome](callback, 0) == predTrue
 //@ ensures [C10 C08] operand-failure-is-unknown: pendingFailed() ==> r0 == predUnknown
@@ -609,15 +634,14 @@ func isUnknownSpec(a predOutcome) predOutcome {
 
 //@ func executeFloatMath
 //@ props C13 C05
-//@ ensures [C13] add: op == ast.BinaryAdd ==> r1 == nil && sameFloat(r0, lhs+rhs)
-//@ ensures [C13] sub: op == ast.BinarySub ==> r1 == nil && sameFloat(r0, lhs-rhs)
-//@ ensures [C13] mul: op == ast.BinaryMul ==> r1 == nil && sameFloat(r0, lhs*rhs)
-//@ ensures [C13] div: op == ast.BinaryDiv && rhs != 0 ==> r1 == nil && sameFloat(r0, lhs/rhs)
+//@ ensures [C13] local-add: op == ast.BinaryAdd ==> ite(!isNaN(lhs+rhs) && !isInf(lhs+rhs), r1 == nil && sameFloat(r0, lhs+rhs), r1 != nil && errIs(r1, ErrVerbose))
+//@ ensures [C13] local-sub: op == ast.BinarySub ==> ite(!isNaN(lhs-rhs) && !isInf(lhs-rhs), r1 == nil && sameFloat(r0, lhs-rhs), r1 != nil && errIs(r1, ErrVerbose))
+//@ ensures [C13] local-mul: op == ast.BinaryMul ==> ite(!isNaN(lhs*rhs) && !isInf(lhs*rhs), r1 == nil && sameFloat(r0, lhs*rhs), r1 != nil && errIs(r1, ErrVerbose))
+//@ ensures [C13] local-div: op == ast.BinaryDiv && rhs != 0 ==> ite(!isNaN(lhs/rhs) && !isInf(lhs/rhs), r1 == nil && sameFloat(r0, lhs/rhs), r1 != nil && errIs(r1, ErrVerbose))
 //@ ensures [C13] zero: (op == ast.BinaryDiv || op == ast.BinaryMod) && rhs == 0 ==> r1 != nil && errIs(r1, ErrVerbose) && errIs(r1, ErrExecution)
-//@ ensures [C13] mod-ok: op == ast.BinaryMod && rhs != 0 ==> r1 == nil
 //@ ensures [C05] class: r1 != nil ==> (errIs(r1, ErrVerbose) && errIs(r1, ErrExecution)) || errIs(r1, ErrInvalid)
 //@ ensures [C05] math-op-never-invalid: op >= ast.BinaryAdd && op <= ast.BinaryMod ==> !errIs(r1, ErrInvalid)
-//@ ensures [C05] local-finite: r1 == nil && !isNaN(lhs) && !isInf(lhs) && !isNaN(rhs) && !isInf(rhs) && op != ast.BinaryMod ==> !isNaN(r0) && !isInf(r0)
+//@ ensures [C05 C13] finite-or-error: r1 == nil ==> !isNaN(r0) && !isInf(r0)
 
 //@ func mathOperandErr
 //@ props C13
@@ -652,16 +676,16 @@ func isUnknownSpec(a predOutcome) predOutcome {
 //@ ensures [C13] nonnumeric-left: !(is[int64](left) || is[float64](left) || is[json.Number](left)) ==> r1 != nil
 //@ ensures [C13] nonnumeric-right: (is[int64](left) || is[float64](left)) && !(is[int64](right) || is[float64](right) || is[json.Number](right)) ==> r1 != nil
 //@ ensures [C13] result-numeric: r1 == nil ==> is[int64](r0) || is[float64](r0)
-//@ ensures [C13] int-int: is[int64](left) && is[int64](right) ==> ncalls(executeIntegerMath) == 1 && callarg[int64](executeIntegerMath, "lhs") == as[int64](left) && callarg[int64](executeIntegerMath, "rhs") == as[int64](right) && callarg[ast.BinaryOperator](executeIntegerMath, "op") == op
+//@ ensures [C13] int-int: is[int64](left) && is[int64](right) ==> ncalls(integerMath) == 1 && callarg[int64](integerMath, "lhs") == as[int64](left) && callarg[int64](integerMath, "rhs") == as[int64](right) && callarg[ast.BinaryOperator](integerMath, "op") == op
 //@ ensures [C13] float-float: is[float64](left) && is[float64](right) ==> ncalls(executeFloatMath) == 1 && callarg[ast.BinaryOperator](executeFloatMath, "op") == op && sameFloat(callarg[float64](executeFloatMath, "lhs"), as[float64](left)) && sameFloat(callarg[float64](executeFloatMath, "rhs"), as[float64](right))
 //@ ensures [C13] int-float: is[int64](left) && is[float64](right) ==> ncalls(executeFloatMath) == 1 && callarg[ast.BinaryOperator](executeFloatMath, "op") == op && sameFloat(callarg[float64](executeFloatMath, "lhs"), toFloat(as[int64](left))) && sameFloat(callarg[float64](executeFloatMath, "rhs"), as[float64](right))
 //@ ensures [C13] float-int: is[float64](left) && is[int64](right) ==> ncalls(executeFloatMath) == 1 && callarg[ast.BinaryOperator](executeFloatMath, "op") == op && sameFloat(callarg[float64](executeFloatMath, "lhs"), as[float64](left)) && sameFloat(callarg[float64](executeFloatMath, "rhs"), toFloat(as[int64](right)))
-//@ ensures [C13] int-jnint: is[int64](left) && is[json.Number](right) && uninterp[bool]("jnIsInt", string(as[json.Number](right))) ==> ncalls(executeIntegerMath) == 1 && callarg[int64](executeIntegerMath, "lhs") == as[int64](left) && callarg[int64](executeIntegerMath, "rhs") == uninterp[int64]("jnInt", string(as[json.Number](right))) && callarg[ast.BinaryOperator](executeIntegerMath, "op") == op
+//@ ensures [C13] int-jnint: is[int64](left) && is[json.Number](right) && uninterp[bool]("jnIsInt", string(as[json.Number](right))) ==> ncalls(integerMath) == 1 && callarg[int64](integerMath, "lhs") == as[int64](left) && callarg[int64](integerMath, "rhs") == uninterp[int64]("jnInt", string(as[json.Number](right))) && callarg[ast.BinaryOperator](integerMath, "op") == op
 //@ ensures [C13] int-jnfloat: is[int64](left) && is[json.Number](right) && !uninterp[bool]("jnIsInt", string(as[json.Number](right))) && uninterp[bool]("jnIsFloat", string(as[json.Number](right))) ==> ncalls(executeFloatMath) == 1 && callarg[ast.BinaryOperator](executeFloatMath, "op") == op && sameFloat(callarg[float64](executeFloatMath, "lhs"), toFloat(as[int64](left))) && sameFloat(callarg[float64](executeFloatMath, "rhs"), uninterp[float64]("jnFloat", string(as[json.Number](right))))
 //@ ensures [C13] float-jnfloat: is[float64](left) && is[json.Number](right) && uninterp[bool]("jnIsFloat", string(as[json.Number](right))) ==> ncalls(executeFloatMath) == 1 && callarg[ast.BinaryOperator](executeFloatMath, "op") == op && sameFloat(callarg[float64](executeFloatMath, "lhs"), as[float64](left)) && sameFloat(callarg[float64](executeFloatMath, "rhs"), uninterp[float64]("jnFloat", string(as[json.Number](right))))
 //@ ensures [C13] jn-left-int: is[json.Number](left) && uninterp[bool]("jnIsInt", string(as[json.Number](left))) ==> ncalls(execMathOp) == 1 && callarg[any](execMathOp, "left") == any(uninterp[int64]("jnInt", string(as[json.Number](left)))) && callarg[any](execMathOp, "right") == right && callarg[ast.BinaryOperator](execMathOp, "op") == op
 //@ ensures [C13] jn-left-float: is[json.Number](left) && !uninterp[bool]("jnIsInt", string(as[json.Number](left))) && uninterp[bool]("jnIsFloat", string(as[json.Number](left))) ==> ncalls(execMathOp) == 1 && callarg[any](execMathOp, "left") == any(uninterp[float64]("jnFloat", string(as[json.Number](left)))) && callarg[any](execMathOp, "right") == right && callarg[ast.BinaryOperator](execMathOp, "op") == op
-//@ ensures [C13] value-passed: r1 == nil ==> (ncalls(executeIntegerMath) == 1 && ncalls(executeFloatMath) == 0 && ncalls(execMathOp) == 0 && r0 == any(callret[int64](executeIntegerMath, 0))) || (ncalls(executeFloatMath) == 1 && ncalls(executeIntegerMath) == 0 && ncalls(execMathOp) == 0 && r0 == any(callret[float64](executeFloatMath, 0))) || (ncalls(execMathOp) == 1 && ncalls(executeIntegerMath) == 0 && ncalls(executeFloatMath) == 0 && r0 == callret[any](execMathOp, 0))
+//@ ensures [C13] value-passed: r1 == nil ==> (ncalls(integerMath) == 1 && ncalls(executeFloatMath) == 0 && ncalls(execMathOp) == 0 && r0 == callret[any](integerMath, 0)) || (ncalls(executeFloatMath) == 1 && ncalls(integerMath) == 0 && ncalls(execMathOp) == 0 && r0 == any(callret[float64](executeFloatMath, 0))) || (ncalls(execMathOp) == 1 && ncalls(integerMath) == 0 && ncalls(executeFloatMath) == 0 && r0 == callret[any](execMathOp, 0))
 
 //@ func castJSONNumber
 //@ props C13
@@ -693,6 +717,20 @@ func isUnknownSpec(a predOutcome) predOutcome {
 // ---------------------------------------------------------------------------
 // compare.go: one order per type
 
+//@ func compareIntFloat
+//@ props C12
+//@ mode bv
+//@ ensures [C12] exact: !isNaN(right) ==> (r0 < 0) == (exactCmpIF(left, right) < 0) && (r0 > 0) == (exactCmpIF(left, right) > 0)
+//@ ensures [C12] three-way: r0 >= -1 && r0 <= 1
+
+//@ func jsonNumberFloat
+//@ props C12 C05
+//@ mode bv
+//@ ensures [C05 C12] total: r1 == nil
+//@ ensures [C12] value: uninterp[bool]("jnIsFloat", string(num)) ==> sameFloat(r0, uninterp[float64]("jnFloat", string(num)))
+//@ ensures [C12] too-large-is-infinite: !uninterp[bool]("jnIsFloat", string(num)) ==> isInf(r0)
+//@ ensures [C12] never-nan: !isNaN(r0)
+
 //@ func compareNumeric
 //@ props C12 C05
 //@ mode bv
@@ -704,7 +742,11 @@ func isUnknownSpec(a predOutcome) predOutcome {
 //@ ensures [C12] int-jnint: is[int64](left) && is[json.Number](right) && uninterp[bool]("jnIsInt", string(as[json.Number](right))) ==> (r0 < 0) == (as[int64](left) < uninterp[int64]("jnInt", string(as[json.Number](right)))) && (r0 > 0) == (as[int64](left) > uninterp[int64]("jnInt", string(as[json.Number](right))))
 //@ ensures [C12] jnint-int: is[json.Number](left) && is[int64](right) && uninterp[bool]("jnIsInt", string(as[json.Number](left))) ==> (r0 < 0) == (uninterp[int64]("jnInt", string(as[json.Number](left))) < as[int64](right)) && (r0 > 0) == (uninterp[int64]("jnInt", string(as[json.Number](left))) > as[int64](right))
 //@ ensures [C12] jnint-jnint: is[json.Number](left) && is[json.Number](right) && uninterp[bool]("jnIsInt", string(as[json.Number](left))) && uninterp[bool]("jnIsInt", string(as[json.Number](right))) ==> (r0 < 0) == (uninterp[int64]("jnInt", string(as[json.Number](left))) < uninterp[int64]("jnInt", string(as[json.Number](right)))) && (r0 > 0) == (uninterp[int64]("jnInt", string(as[json.Number](left))) > uninterp[int64]("jnInt", string(as[json.Number](right))))
-//@ ensures [C12] float-jnfloat: is[float64](left) && is[json.Number](right) && uninterp[bool]("jnIsFloat", string(as[json.Number](right))) && !isNaN(as[float64](left)) ==> (r0 < 0) == (as[float64](left) < uninterp[float64]("jnFloat", string(as[json.Number](right)))) && (r0 > 0) == (as[float64](left) > uninterp[float64]("jnFloat", string(as[json.Number](right))))
+//@ ensures [C12] local-float-jnint: is[float64](left) && is[json.Number](right) && uninterp[bool]("jnIsInt", string(as[json.Number](right))) && !isNaN(as[float64](left)) ==> (r0 > 0) == (exactCmpIF(uninterp[int64]("jnInt", string(as[json.Number](right))), as[float64](left)) < 0) && (r0 < 0) == (exactCmpIF(uninterp[int64]("jnInt", string(as[json.Number](right))), as[float64](left)) > 0)
+//@ ensures [C12] float-jnfloat: is[float64](left) && is[json.Number](right) && !uninterp[bool]("jnIsInt", string(as[json.Number](right))) && uninterp[bool]("jnIsFloat", string(as[json.Number](right))) && !isNaN(as[float64](left)) ==> (r0 < 0) == (as[float64](left) < uninterp[float64]("jnFloat", string(as[json.Number](right)))) && (r0 > 0) == (as[float64](left) > uninterp[float64]("jnFloat", string(as[json.Number](right))))
+//@ ensures [C12] local-int-jnfloat: is[int64](left) && is[json.Number](right) && !uninterp[bool]("jnIsInt", string(as[json.Number](right))) && uninterp[bool]("jnIsFloat", string(as[json.Number](right))) ==> (r0 < 0) == (exactCmpIF(as[int64](left), uninterp[float64]("jnFloat", string(as[json.Number](right)))) < 0) && (r0 > 0) == (exactCmpIF(as[int64](left), uninterp[float64]("jnFloat", string(as[json.Number](right)))) > 0)
+//@ ensures [C12] local-int-jn-too-large: is[int64](left) && is[json.Number](right) && !uninterp[bool]("jnIsFloat", string(as[json.Number](right))) ==> r0 != 0
+//@ ensures [C12] local-antisymmetric-int-float: is[int64](left) && is[float64](right) && !isNaN(as[float64](right)) ==> r0 == -ite(exactCmpIF(as[int64](left), as[float64](right)) > 0, -1, ite(exactCmpIF(as[int64](left), as[float64](right)) < 0, 1, 0))
 //@ ensures [C12] three-way: r0 == -1 || r0 == 0 || r0 == 1
 
 //@ func (*Executor).compareItems
